@@ -349,15 +349,9 @@ func run(r *vt.Run, t vt.TB, s spec) {
 				}
 				got = append(got, n+"/"+coll+"/"+c.SortOrder.String())
 			}
-			// expression columns: sqlittle reports no collation; SQLite's is
-			// whatever the expression yields. Compare those by position only.
+			// (expression columns carry the collation given with them, BINARY otherwise)
 			same := len(got) == len(want)
 			for k := 0; same && k < len(got); k++ {
-				if strings.HasPrefix(want[k], "<expr>/") || strings.HasPrefix(got[k], "<expr>/") {
-					gd, wd := got[k][strings.LastIndex(got[k], "/"):], want[k][strings.LastIndex(want[k], "/"):]
-					same = strings.HasPrefix(want[k], "<expr>/") == strings.HasPrefix(got[k], "<expr>/") && gd == wd
-					continue
-				}
 				same = got[k] == want[k]
 			}
 			if !same {
